@@ -55,7 +55,8 @@ def wait_group_gone(pgid, timeout=15.0):
 class Cycle:
     """One pipestance directory driven through one or more mrp incarnations."""
 
-    def __init__(self, root, workdir, prog, sem, name, vdr="disable", delay_ms=20, faults=None, extra_args=()):
+    def __init__(self, root, workdir, prog, sem, name, vdr="disable", delay_ms=20, faults=None, extra_args=(),
+                 cores=4, mem=4):
         self.root, self.wd, self.name = root, workdir, name
         os.makedirs(workdir, exist_ok=True)
         self.psid = "ps"
@@ -68,6 +69,7 @@ class Cycle:
                   open(self.table, "w"))
         self.vdr = vdr
         self.extra = list(extra_args)
+        self.cores, self.mem = cores, mem
         self.log = []
 
     def mark(self, ev, **kw):
@@ -86,8 +88,8 @@ class Cycle:
             env["VERIF_CRASH_AT"] = str(crash_at)
         if signal_at:
             env["VERIF_SIGNAL_AT"] = "%d:%d" % signal_at
-        cmd = [os.path.join(self.root, "bin", MRP), "p.mro", self.psid, "--disable-ui", "--localcores=4",
-               "--localmem=4", "--vdrmode=" + self.vdr] + self.extra
+        cmd = [os.path.join(self.root, "bin", MRP), "p.mro", self.psid, "--disable-ui", "--localcores=%d" % self.cores,
+               "--localmem=%d" % self.mem, "--vdrmode=" + self.vdr] + self.extra
         t0 = time.time()
         out = open(os.path.join(self.wd, "mrp.out"), "a")
         p = subprocess.Popen(cmd, cwd=self.wd, env=env, stdout=out, stderr=subprocess.STDOUT,
